@@ -1,5 +1,6 @@
 import Pamqp.Spec.Wire
 import Pamqp.Spec.Defs
+import Pamqp.Proofs.Grammar
 /-!
 # C05 — the decoder accepts every well-formed wire frame a peer may send
 "Well-formed" is the grammar: a wire-level tree `Spec.FV` with `FV.WF` (any of the 19 tags, table
@@ -14,30 +15,30 @@ exactly the value the reference assigns, consuming exactly its own bytes -/
 theorem C05_decode_agrees_value (fv : Spec.FV) (hwf : fv.WF) (v : PyVal) (hv : fv.value = some v)
     (rest : Bytes) :
     Decode.embeddedValue (fv.wire ++ rest) = .ok (fv.wire.length, v) := by
-  sorry
+  exact Proofs.Grammar.decode_agrees_value fv hwf v hv rest
 
 /-- the same for a field table given as a method argument / property (no tag) -/
 theorem C05_decode_agrees_table (l : List (Bytes × Spec.FV)) (hwf : (Spec.FV.tbl l).WF) (v : PyVal)
     (hv : (Spec.FV.tbl l).value = some v) (rest : Bytes) :
     Decode.fieldTableTop ((Spec.FV.tbl l).wire.drop 1 ++ rest) = .ok ((Spec.FV.tbl l).wire.length - 1, v) := by
-  sorry
+  exact Proofs.Grammar.decode_agrees_table l hwf v hv rest
 
 /-- the strict reference parser reads back exactly the tree: the serialisation is unambiguous
 (so the domain of the theorem above is exactly what the grammar derives) -/
 theorem C05_parse_wire (fv : Spec.FV) (hwf : fv.WF) (rest : Bytes) (f : Nat)
     (hf : 2 * fv.wire.length + 1 ≤ f) :
     Spec.parseFV f (fv.wire ++ rest) = some (fv, rest) := by
-  sorry
+  exact Proofs.Grammar.parse_wire fv hwf rest f hf
 
 /-- a timestamp too large to be represented as a datetime is refused, not returned as another instant -/
 theorem C05_timestamp_refused (n : Nat) (h : 253402300800000 ≤ n) (hn : n < 2 ^ 64) (rest : Bytes) :
     Decode.timestamp (beN 8 n ++ rest) = .error .valueError ∧ Spec.tsValue n = none := by
-  sorry
+  exact Proofs.Grammar.timestamp_refused n h hn rest
 
 /-- above 2^32-1 the value is read as milliseconds, exactly (no floating point) -/
 theorem C05_timestamp_ms (n : Nat) (h : 4294967296 ≤ n) (h' : n ≤ 253402300799999) (rest : Bytes) :
     Decode.timestamp (beN 8 n ++ rest) = .ok (8, .datetime ((n : Int) * 1000) (some 0)) := by
-  sorry
+  exact Proofs.Grammar.timestamp_ms n h h' rest
 
 /-- no argument validation is applied to received frames: the method decoder is the bare argument
 loop, whatever the class's rules are -/
